@@ -174,7 +174,7 @@ def growth(z, profiles, kx, ky):
     return best
 
 
-CR_MAX = 1e5
+CR_MAX = 2e4
 
 
 def conductance_ratio(z, profiles):
